@@ -226,6 +226,9 @@ type loopInfo struct {
 }
 
 type Explorer struct {
+	// loop-carried variables that only ever hold one of a few loop-invariant values (a value computed on
+	// first use and kept): tag+φ name → those values; filled by a first exploration, used by the second
+	phiHints map[string][]Val
 	M             *Model
 	P             *Program
 	touches       map[*ssa.Function]bool
@@ -542,6 +545,102 @@ func (x *Explorer) Explore(fn *ssa.Function, params []Val) []*Outcome {
 
 // ExploreWith: as Explore, the arguments being built in the initial state (objects, known sequences).
 func (x *Explorer) ExploreWith(fn *ssa.Function, build func(st *State) []Val) []*Outcome {
+	outs := x.exploreOnce(fn, build)
+	if x.phiHints != nil {
+		return outs
+	}
+	if hints := phiValueSets(outs); len(hints) > 0 {
+		x.phiHints = hints
+		paths := x.Stats.Paths
+		outs = x.exploreOnce(fn, build)
+		x.Stats.Paths += paths
+		x.phiHints = nil
+	}
+	return outs
+}
+
+// pureLoopInvariant: a value that means the same in every state and every iteration — nil, a constant,
+// or a term over the request only.
+func pureLoopInvariant(v Val, tag string) bool {
+	switch y := v.(type) {
+	case *KConst:
+		return true
+	case *Sym:
+		return !strings.Contains(y.N, "#") && !strings.Contains(y.N, "/") && !strings.Contains(y.N, tag) && strings.Contains(y.N, "req.")
+	}
+	return false
+}
+
+// phiValueSets: for each loop-carried φ, if at every back edge seen it holds either what it held at the start
+// of the iteration or one and the same loop-invariant value X, and it enters the loop as nil / a constant,
+// then by induction it only ever holds the initial value or X.
+func phiValueSets(outs []*Outcome) map[string][]Val {
+	type acc struct {
+		init  Val
+		other map[string]Val
+		bad   bool
+		n     int
+	}
+	accs := map[string]*acc{}
+	for _, o := range outs {
+		if o.Kind != exitLoopback {
+			continue
+		}
+		for _, l := range o.St.loops {
+			if l.Tag != o.Loop {
+				continue
+			}
+			for _, ph := range l.Phis {
+				if ph.MemKey != "" || ph.Havoc == nil {
+					continue
+				}
+				hs, isSym := ph.Havoc.(*Sym)
+				if !isSym {
+					continue
+				}
+				k := l.Tag + "|" + ph.Name
+				a := accs[k]
+				if a == nil {
+					a = &acc{init: ph.Init, other: map[string]Val{}}
+					accs[k] = a
+				}
+				a.n++
+				if _, isK := ph.Init.(*KConst); !isK || vstr(ph.Init) != vstr(a.init) {
+					a.bad = true
+				}
+				if ph.Back == nil {
+					a.bad = true
+					continue
+				}
+				if bs, ok := ph.Back.(*Sym); ok && bs.N == hs.N {
+					continue // unchanged in this iteration
+				}
+				if vstr(ph.Back) == vstr(a.init) {
+					continue
+				}
+				if !pureLoopInvariant(ph.Back, l.Tag) {
+					a.bad = true
+					continue
+				}
+				a.other[vstr(ph.Back)] = ph.Back
+			}
+		}
+	}
+	out := map[string][]Val{}
+	for k, a := range accs {
+		if a.bad || len(a.other) != 1 {
+			continue
+		}
+		vals := []Val{a.init}
+		for _, v := range a.other {
+			vals = append(vals, v)
+		}
+		out[k] = vals
+	}
+	return out
+}
+
+func (x *Explorer) exploreOnce(fn *ssa.Function, build func(st *State) []Val) []*Outcome {
 	x.outcomes = nil
 	x.cut = false
 	st := newState()
@@ -866,6 +965,47 @@ func (x *Explorer) runBlock(fr *Frame, b *ssa.BasicBlock, pred *ssa.BasicBlock, 
 		}
 		st.loops = append(st.loops, rec)
 		st.events = append(st.events, Event{Kind: "loopenter", Method: tag, Loop: tag, Fn: fr.fn, Seq: len(st.events)})
+		// φs known (from the first exploration) to hold one of a few loop-invariant values: one path each
+		if x.phiHints != nil {
+			type alt struct {
+				idx  int
+				vals []Val
+			}
+			var alts []alt
+			for i, pr := range rec.Phis {
+				if vs := x.phiHints[tag+"|"+pr.Name]; len(vs) > 0 && pr.MemKey == "" {
+					alts = append(alts, alt{i, vs})
+				}
+			}
+			if len(alts) > 0 && len(alts) <= 2 {
+				var rec2 func(ai int, st *State, fr *Frame)
+				rec2 = func(ai int, st *State, fr *Frame) {
+					if ai == len(alts) {
+						x.runInstrs(fr, b, firstNonPhi(b), st, k)
+						return
+					}
+					for vi, v := range alts[ai].vals {
+						st2, fr2 := st, fr
+						if vi < len(alts[ai].vals)-1 {
+							st2, fr2 = st.clone(), fr.clone()
+							x.Stats.Forks++
+						}
+						if ph := x.findPhi(b, rec.Phis[alts[ai].idx].Name); ph != nil {
+							fr2.env[ph] = v
+						}
+						ls := st2.loops
+						st2.loops = append([]LoopRec(nil), ls...)
+						lr := st2.loops[len(st2.loops)-1]
+						lr.Phis = append([]PhiRec(nil), lr.Phis...)
+						lr.Phis[alts[ai].idx].Havoc = v
+						st2.loops[len(st2.loops)-1] = lr
+						rec2(ai+1, st2, fr2)
+					}
+				}
+				rec2(0, st, fr)
+				return
+			}
+		}
 	} else if pred != nil {
 		// ordinary phis: evaluate simultaneously
 		var phis []*ssa.Phi
